@@ -30,6 +30,12 @@ type LoopSpec struct {
 	HasFrame   bool
 }
 
+type GhostAssign struct {
+	Name string
+	Expr SExpr
+	Src  string
+}
+
 type LetDecl struct {
 	Name string
 	Expr SExpr
@@ -44,6 +50,7 @@ type Contract struct {
 	Mode     string // "", "bv"
 	Requires []*Clause
 	Ensures  []*Clause
+	GhostSet []GhostAssign // ghost-set name = expr : the ghost variable's value at exit
 	Lets     []LetDecl
 	Modifies []SExpr
 	ModSrc   []string
@@ -130,7 +137,7 @@ var clauseRe = regexp.MustCompile(`^(requires|ensures|invariant|assert)(\[[^\]]*
 
 var keywords = map[string]bool{"contract": true, "iface": true, "pure": true, "axiom": true, "lemma": true, "monitor": true, "ghost": true,
 	"serves": true, "mode": true, "requires": true, "ensures": true, "modifies": true, "modifies-all": true, "loop": true, "let": true,
-	"trusted": true, "abstract": true, "acquires": true, "nonnil": true, "immutable": true, "may-panic": true, "uninterp": true, "callers-only": true, "opt": true, "noop": true, "pure-method": true, "refines": true}
+	"trusted": true, "abstract": true, "acquires": true, "nonnil": true, "immutable": true, "may-panic": true, "uninterp": true, "callers-only": true, "opt": true, "noop": true, "pure-method": true, "refines": true, "ghost-set": true}
 
 func firstWord(s string) string {
 	s = strings.TrimSpace(s)
@@ -251,6 +258,16 @@ func (cs *Contracts) parseFile(p *Program, pkgPath, fname string, f *ast.File) e
 			} else {
 				cur.Ensures = append(cur.Ensures, cl)
 			}
+		case "ghost-set":
+			i := strings.Index(rest, "=")
+			if i < 0 || cur == nil {
+				return fail(fmt.Errorf("ghost-set name = expr"))
+			}
+			e, err := parseSpecExpr(rest[i+1:])
+			if err != nil {
+				return fail(err)
+			}
+			cur.GhostSet = append(cur.GhostSet, GhostAssign{strings.TrimSpace(rest[:i]), e, rest[i+1:]})
 		case "let":
 			i := strings.Index(rest, "=")
 			if i < 0 {
